@@ -1207,6 +1207,12 @@ class FnLower:
         if len(args) == 2 and name == 'operator[]' and L.deref_t(args[0]['type'])[0] == 'ptr':
             a, b = self.operands([('rv', args[0]), ('rv', args[1])])
             return '(&%s[%s])' % (a, b), True
+        if name in ('operator!=', 'operator==') and len(args) == 2 and 'uptr' in (L.deref_t(args[0]['type'])[0], L.deref_t(args[1]['type'])[0]):
+            # unique_ptr compared with nullptr (or with another unique_ptr): the owned pointers are compared
+            xs = []
+            for a in args:
+                xs.append(self.lv(a) if L.deref_t(a['type'])[0] == 'uptr' and self.is_glvalue(a) else self.rv(a))
+            return '((void *)%s %s (void *)%s)' % (xs[0], name[8:], xs[1]), False
         if name in ('operator!=', 'operator==') and len(args) == 2 and L.deref_t(args[0]['type'])[0] == 'ptr' and L.deref_t(args[1]['type'])[0] == 'ptr':
             a, b = self.operands([('rv', args[0]), ('rv', args[1])])
             return '(%s %s %s)' % (a, name[8:], b), False
